@@ -455,6 +455,12 @@ def _hyp_cluster(check: Check, algs):
                 isinstance(t_, ast.Name) for t_ in sa.targets[0].elts):
               r_o, r_p = (t_.id for t_ in sa.targets[0].elts)
               ok_none = kept.get(r_o) == o and kept.get(r_p) == p
+              # other accepted form: `if delta is not None: opt_state, params = apply(delta, opt_state, params)` - the loop variables
+              # themselves are overwritten and simply carried over when the guard does not hold
+              if not other and (r_o, r_p) == (o, p):
+                ok_none = True
+              if not ok_none and not other and (r_o, r_p) != (o, p):
+                ok_none = None   # nothing is assigned on the None arm: where the carried-over values come from is not recognised
     # both results (on either arm) end up in the lists that form the new ServerState, in field order
     ok_lists = False
     why_l = 'new state constructor not found'
@@ -480,7 +486,7 @@ def _hyp_cluster(check: Check, algs):
              node=oc.call)
     check.ob('R-HYP.roles', fi, txt(oc.call)[:80], ok_zip,
              f'cluster i is updated from delta i, opt_state i, params i of the same zip position ({why})', node=oc.call)
-    check.ob('R-HYP.empty', fi, 'delta is None arm', ok_none,
+    check.ob('R-HYP.empty', fi, 'delta is None arm', ok_none if ok_none is not False or ok_zip else None,
              'a cluster that saw no example keeps its (opt_state, params) unchanged', node=oc.call)
   # expectation_step: client trains from the params of its assigned cluster
   es = repo.func('fedjax.algorithms.hyp_cluster', 'expectation_step')
